@@ -21,7 +21,12 @@ build() {
     echo "verif: the repository contains constructs the simulator does not own; refusing to give a verdict" >&2
     exit 2
   fi
-  go build -race -overlay "$WORK/overlay/overlay.json" -o "$WORK/simworker" ./cmd/simworker 2>"$WORK/build.log" || {
+  MODFILE=""
+  if [ "$REPO" != "/repo" ]; then
+    # another copy of the repository (background sweeps on a snapshot): same module graph, other replace target
+    sed "s#=> /repo#=> $REPO#" go.mod >"$WORK/go.mod" && cp go.sum "$WORK/go.sum" && MODFILE="-modfile=$WORK/go.mod"
+  fi
+  go build $MODFILE -race -overlay "$WORK/overlay/overlay.json" -o "$WORK/simworker" ./cmd/simworker 2>"$WORK/build.log" || {
     cat "$WORK/build.log" >&2; echo "verif: worker build failed (harness/build trouble, not a verdict)" >&2; exit 2; }
 }
 case "$1" in
